@@ -29,6 +29,8 @@ func c04Params(thorough bool) []histParams {
 		// the authenticator reports a token that has no time left (login in the last second of the token's
 		// life): every request must go back to the authenticator
 		{Name: "V40-R0-L200-token-expires-at-once", V: 40, R: 0, L: 200, G: 70, Gaps: []int64{20, 60, 220}, Policy: pol, User: carol, Alphabet: "c04", MaxDepth: 6},
+		// the validity TTL set to zero: every request revalidates
+		{Name: "V0-R100-L200-revalidate-every-request", V: 0, R: 100, L: 200, G: 70, Gaps: []int64{20, 60, 220}, Policy: pol, User: carol, Alphabet: "c04", MaxDepth: 6},
 		{Name: "V40-R100-L200-upstream-sets-cookie", V: 40, R: 100, L: 200, G: 70, Gaps: []int64{20, 60, 120, 220}, Policy: pol, User: carol, Alphabet: "c04", MaxDepth: 12, UpstreamCookie: true},
 	}
 	if thorough {
